@@ -286,7 +286,7 @@ def scenarios(ctx: Ctx):
         yield c["scenario"] if "scenario" in c else c
     for sc in hand_scenarios():
         yield sc
-    n = 65 if ctx.quick() else 300
+    n = 50 if ctx.quick() else 300
     for i in range(n):
         sc = m.rand_scenario(ctx.rng, nsteps=ctx.rng.choice([2, 3, 4, 5, 6, 8, 10, 12, 16]), broken=False,
                              res_bias=ctx.rng.choice([0.2, 0.4, 0.6]))
